@@ -62,6 +62,10 @@ Inductive c07case :=
 (* MatchTLS{alpn: cfg (when use_alpn)}.Match on a connection holding exactly [p] prefetched bytes:
    verdict, whether the placeholders were set, and their values *)
 | CGate (p : list byte) (use_alpn : bool) (cfg : list (list byte)) (v : verdict) (set : bool)
+        (server_name : list byte) (version : Z)
+(* two evaluations on one connection lineage (shared variable table and replacer): first on pA with
+   no sub-matcher, then on pB; observed: the SECOND verdict and the placeholders after it *)
+| CRematch (pA pB : list byte) (use_alpn : bool) (cfg : list (list byte)) (v : verdict) (set : bool)
         (server_name : list byte) (version : Z).
 
 Definition opt_bytes_eqb (a : option (list byte)) (set : bool) (b : list byte) : bool :=
@@ -79,4 +83,13 @@ Definition check (c : c07case) : bool :=
       let r := tls_match subs p in
       verdict_eqb (r_verdict r) v && opt_bytes_eqb (r_server_name r) set sn &&
       opt_N_eqb (r_version r) set (Z.to_N ver)
+  | CRematch pA pB use_alpn cfg v set sn ver =>
+      let subs := fun i => if use_alpn then alpn_match cfg (i_protos i) else true in
+      let st := snd (tls_rematch (fun _ => true) None pA) in
+      let r := tls_rematch subs st pB in
+      verdict_eqb (fst r) v &&
+      match snd r with
+      | Some (n, x) => set && bytes_eqb n sn && N.eqb x (Z.to_N ver)
+      | None => negb set
+      end
   end.
